@@ -207,7 +207,11 @@ class Gen:
         k = self.r.random()
         if k < 0.4:
             body = self.body()
-            self.add({"op": "http", "method": "POST", "target": "/cas", "body": body, "chunked": self.r.choice([None, 3]) if body else None})
+            # tiny chunks only for small bodies: tens of thousands of 3-byte chunks take longer than the read timeout on a
+            # loaded machine and would be mistaken for a hung connection
+            ch = (self.r.choice([None, 3]) if len(body) <= 2000 else self.r.choice([None, 4096, 1000])) if body else None
+            self.add({"op": "http", "method": "POST", "target": "/cas", "body": body, "chunked": ch,
+                      "read_ms": 4000 if len(body) > 2000 else 1500})
             if body:
                 self.hashes.append(body)
         elif k < 0.75 and self.hashes:
@@ -280,12 +284,15 @@ def gen_case(seed, prop):
 def parse_frame_json(obj):
     """HTTP frame JSON -> protocol frame"""
     return {"id": b36_to_hex(obj["id"]), "ctx": b36_to_hex(obj["context_id"]), "topic": obj["topic"].encode().hex(),
-            "hash": obj.get("hash"), "meta": obj.get("meta"), "ttl": obj.get("ttl")}
+            "hash": obj.get("hash"), "meta": obj.get("meta"), "ttl": obj.get("ttl"), "meta_is_value": True}
 
 
 def frame_to_http_json(f):
+    meta = f.get("meta")
+    if isinstance(meta, str) and not f.get("meta_is_value"):
+        meta = json.loads(meta)         # a worker frame carries its meta as JSON text
     return {"topic": bytes.fromhex(f["topic"]).decode(), "context_id": hex_to_b36(f["ctx"]), "id": hex_to_b36(f["id"]),
-            "hash": f.get("hash"), "meta": (json.loads(f["meta"]) if isinstance(f.get("meta"), str) else f.get("meta")), "ttl": f.get("ttl")}
+            "hash": f.get("hash"), "meta": meta, "ttl": f.get("ttl")}
 
 
 def body_frames(resp, sse):
@@ -406,7 +413,7 @@ def run_model(named):
 
 
 def cf(f):
-    return S.canon_frame(f)
+    return S.canon_frame({k: v for k, v in f.items() if k != "meta_is_value"})
 
 
 def compare(trace, model):
